@@ -241,7 +241,20 @@ pub fn any_specs_kind_dd(directed: bool, multi_edges: bool, dd: u8) -> GraphSpec
 /// the operation names a node that is not in the pre-state (a conditional add_node makes the
 /// container shapes symbolic, which costs minutes and > 20 GB in CBMC).
 pub fn any_specs_kind_dd_mm(directed: bool, multi_edges: bool, dd: u8, mm: u8) -> GraphSpecs {
+    any_specs_kind_dd_mm_sl(directed, multi_edges, dd, mm, 0)
+}
+
+/// `sl`: 0 = self-loop policy symbolic, 1 = self-loops allowed, 2 = disallowed + Error,
+/// 3 = disallowed + Drop. The generator fixes it when the operation under test is a self-loop (a
+/// conditionally stored self-loop makes the container shapes symbolic: measured > 24 GB).
+pub fn any_specs_kind_dd_mm_sl(directed: bool, multi_edges: bool, dd: u8, mm: u8, sl: u8) -> GraphSpecs {
     let create = if mm == 2 { any_bool() } else { mm == 0 };
+    let (self_loops, sl_error) = match sl {
+        0 => (any_bool(), any_bool()),
+        1 => (true, any_bool()),
+        2 => (false, true),
+        _ => (false, false),
+    };
     GraphSpecs {
         directed,
         edge_dedupe_strategy: dedupe_of(dd),
@@ -251,8 +264,8 @@ pub fn any_specs_kind_dd_mm(directed: bool, multi_edges: bool, dd: u8, mm: u8) -
             MissingNodeStrategy::Error
         },
         multi_edges,
-        self_loops: any_bool(),
-        self_loops_false_strategy: if any_bool() {
+        self_loops,
+        self_loops_false_strategy: if sl_error {
             SelfLoopsFalseStrategy::Error
         } else {
             SelfLoopsFalseStrategy::Drop
